@@ -390,6 +390,93 @@ def extra_tables(w, info):
     w("def kDefaultChain : List String := [" + ", ".join(f'"{c}"' for c in kch) + "]")
     info["vDefaultChain"] = vch
     info["kDefaultChain"] = kch
+    datetime_tables(w, info)
+
+
+def datetime_tables(w, info):
+    """range bounds of both date-time parsers"""
+    src = strip_comments(read("crates/toml_edit/src/parser/datetime.rs"))
+    k = src.find("#[cfg(test)]")
+    src = src[:k] if k >= 0 else src
+    bounds = {}
+    for fn in ["date_month", "date_mday", "time_hour", "time_minute", "time_second"]:
+        f = find_fn(src, fn)
+        m = re.search(r"\((\d+)\.\.=(\d+)\)\.contains\(&d\)", f)
+        md = re.search(r"unsigned_digits::<(\d+), (\d+)>", f)
+        if not m or not md:
+            raise TranslateError(f"parser/datetime.rs: {fn}: range or digit count not found")
+        bounds[fn] = (int(m.group(1)), int(m.group(2)), int(md.group(1)), int(md.group(2)))
+    f = find_fn(src, "date_fullyear")
+    md = re.search(r"unsigned_digits::<(\d+), (\d+)>", f)
+    if not md:
+        raise TranslateError("parser/datetime.rs: date_fullyear digits")
+    w("/-- (lo, hi, min digits, max digits) of the document parser's date-time fields -/")
+    for fn, b in bounds.items():
+        w(f"def doc_{fn} : Nat × Nat × Nat × Nat := ({b[0]}, {b[1]}, {b[2]}, {b[3]})")
+    w(f"def doc_date_fullyear_digits : Nat × Nat := ({md.group(1)}, {md.group(2)})")
+    f = find_fn(src, "full_date_")
+    mm = re.search(r"let max_days_in_month = match month \{(.*?)\};", f, re.S)
+    if not mm:
+        raise TranslateError("parser/datetime.rs: month-length match")
+    arms = re.sub(r"\s+", " ", mm.group(1).strip())
+    w(f'def doc_month_arms : String := "{arms}"')
+    ml = re.search(r"let is_leap_year = (.*?);", f, re.S)
+    w(f'def doc_leap : String := "{re.sub(chr(92)+"s+", " ", ml.group(1).strip())}"')
+    if "if max_days_in_month < day" not in f:
+        raise TranslateError("parser/datetime.rs: max-day comparison")
+    f = find_fn(src, "time_secfrac")
+    ms = re.search(r"static SCALE: \[u32; (\d+)\] = \[(.*?)\];", f, re.S)
+    if not ms:
+        raise TranslateError("parser/datetime.rs: SCALE")
+    sc = [int(x.strip().replace("_", "")) for x in ms.group(2).split(",") if x.strip()]
+    w("def doc_SCALE : List Nat := [" + ", ".join(map(str, sc)) + "]")
+    f = find_fn(src, "time_offset")
+    mo = re.search(r"\(\((-?\d+) \* (\d+)\)\.\.=\((\d+) \* (\d+)\)\)\.contains\(minutes\)", f)
+    if not mo:
+        raise TranslateError("parser/datetime.rs: offset range")
+    w(f"def doc_offset_range : Int × Int := ({int(mo.group(1)) * int(mo.group(2))}, {int(mo.group(3)) * int(mo.group(4))})")
+    if "hours as i16 * 60 + minutes as i16" not in f:
+        raise TranslateError("parser/datetime.rs: offset arithmetic")
+    f = find_fn(src, "date_time")
+    if "(full_date, opt((time_delim, partial_time, opt(time_offset))))" not in f:
+        raise TranslateError("parser/datetime.rs: date_time shape")
+    # ---- toml_datetime FromStr
+    src = strip_comments(read("crates/toml_datetime/src/datetime.rs"))
+    i = src.index("impl FromStr for Datetime")
+    f = src[i:src.index("fn digit(", i)]
+    conds = {
+        "month": r"if date\.month < (\d+) \|\| date\.month > (\d+)",
+        "day": r"if date\.day < (\d+) \|\| date\.day > max_days_in_month",
+        "hour": r"if time\.hour > (\d+)",
+        "minute": r"if time\.minute > (\d+)",
+        "second": r"if time\.second > (\d+)",
+        "nanosecond": r"if time\.nanosecond > ([\d_]+)",
+        "offset_fields": r"if hours > (\d+) \|\| minutes > (\d+)",
+        "offset_total": r"\(\((-?\d+) \* (\d+)\)\.\.=\((\d+) \* (\d+)\)\)\.contains\(&total_minutes\)",
+        "minlen": r"if date\.len\(\) < (\d+)",
+        "frac_digits": r"if i < (\d+)",
+        "frac_pow": r"10_u32\.pow\((\d+) - i as u32\)",
+    }
+    for k, rx in conds.items():
+        m = re.search(rx, f)
+        if not m:
+            raise TranslateError(f"toml_datetime datetime.rs: FromStr check `{k}` not found")
+        vals = [int(g.replace("_", "")) for g in m.groups()]
+        w(f"def std_{k} : List Int := [" + ", ".join(map(str, vals)) + "]")
+    mm = re.search(r"let max_days_in_month = match date\.month \{(.*?)\};", f, re.S)
+    if not mm:
+        raise TranslateError("toml_datetime: month-length match")
+    w(f'def std_month_arms : String := "{re.sub(chr(92)+"s+", " ", mm.group(1).strip())}"')
+    ml = re.search(r"let is_leap_year =(.*?);", f, re.S)
+    w(f'def std_leap : String := "{re.sub(chr(92)+"s+", " ", ml.group(1).strip())}"')
+    md = re.search(r"next == Some\('(.)'\) \|\| next == Some\('(.)'\) \|\| next == Some\('(.)'\)", f)
+    if not md:
+        raise TranslateError("toml_datetime: time delimiters")
+    w("def std_time_delims : List UInt8 := [" + ", ".join(str(ord(c)) for c in md.groups()) + "]")
+    # Display
+    disp = src[src.index("impl fmt::Display for Date {"):src.index("impl FromStr for Datetime")]
+    fmts = re.findall(r'write!\(f, "([^"]*)"', disp) + re.findall(r'format!\("([^"]*)"', disp)
+    w("def std_display_formats : List String := [" + ", ".join('"' + x + '"' for x in fmts) + "]")
 
 
 if __name__ == "__main__":
